@@ -32,20 +32,6 @@ static void show_ref(YR_ARENA_REF r)
   if (YR_ARENA_IS_NULL_REF(r)) printf(" null"); else printf(" %u.%u", r.buffer_id, r.offset);
 }
 
-// run-length encoded request trace of a reading stream
-static void rle_trace(const char* t, SB* out)
-{
-  char* s = strdup(t); char* save = NULL; char last[64] = ""; int n = 0; int first = 1;
-  for (char* x = strtok_r(s, ",", &save); ; x = strtok_r(NULL, ",", &save))
-  {
-    if (x && !strcmp(x, last)) { n++; continue; }
-    if (n > 0) { sb_add(out, "%s%s", first ? "" : ",", last); if (n > 1) sb_add(out, "*%d", n); first = 0; }
-    if (!x) break;
-    snprintf(last, sizeof last, "%s", x); n = 1;
-  }
-  free(s);
-}
-
 static int save_arena(YR_ARENA* a, MS* m)
 {
   YR_STREAM st; st.user_data = m; st.write = ms_write; st.read = NULL;
